@@ -187,4 +187,20 @@ theorem Comp.ofConvPhysConst_ok (o : Obj) (dop : Dop) (c val : PVal) (i : IVal) 
 theorem Comp.ofConvPhysConst_endOk (o : Obj) (dop : Dop) (c val : PVal) (i : IVal) (b : Bool) :
     (Comp.ofConvPhysConst o dop c val i b).EndOk := Comp.endOk_of_plain _ rfl
 
+/-! ### the same leaf as a VALUE parameter with PHYSICAL-DEFAULT-VALUE -/
+
+/-- VALUE parameter with PHYSICAL-DEFAULT-VALUE `dv` typed by `dop`; `omitted`: nothing is supplied and the default is
+    encoded (then `sup` — the value that reaches the DOP — is the default), otherwise `sup` is supplied -/
+def Comp.ofConvDefault (o : Obj) (dop : Dop) (dv : PVal) (omitted : Bool) (sup val : PVal) (i : IVal) : Comp :=
+  (Comp.ofConvLeaf o dop sup val i).withDefault o.name o.bytePos o.bitPos dop dv omitted
+
+theorem Comp.ofConvDefault_ok (o : Obj) (dop : Dop) (dv : PVal) (omitted : Bool) (sup val : PVal) (i : IVal) (ho : o.ok)
+    (hr : o.inRange i) (hc : ConvOk dop o.dct sup val i) (hom : omitted = true → sup = dv) :
+    (Comp.ofConvDefault o dop dv omitted sup val i).Ok :=
+  Comp.withDefault_ok _ (Comp.ofConvLeaf_ok o dop sup val i ho hr hc) _ _ _ _ _ _ rfl (fun h => by rw [hom h]; rfl)
+
+theorem Comp.ofConvDefault_endOk (o : Obj) (dop : Dop) (dv : PVal) (omitted : Bool) (sup val : PVal) (i : IVal) :
+    (Comp.ofConvDefault o dop dv omitted sup val i).EndOk :=
+  Comp.withDefault_endOk _ (Comp.ofConvLeaf_endOk o dop sup val i) _ _ _ _ _ _
+
 end OdxVerif.Codec
